@@ -13,12 +13,14 @@ import copy
 import functools
 import pickle
 
+from . import c19_sets as S
 from . import cells_common as C
 from . import core
 
 PROP = "C19"
 DRIVER = "drv_copy"
-LEAN_MODULES = ["MesaModel.Props.C19"]
+DRIVERS = ["drv_copy", S.DRIVER]
+LEAN_MODULES = ["MesaModel.Props.C19", "MesaModel.Props.C19Sets"]
 THEOREMS = ["Mesa.Copy." + t for t in (
     "C19_cells_see_own_layers", "C19_copy_sees_own_layers", "C19_copy_faithful", "C19_copy_detached",
     "C19_spaces_never_share", "C19_original_untouched_by_copy", "C19_reject_unchanged")]
@@ -240,7 +242,17 @@ class Impl:
         return out
 
 
+def is_sets(sc):
+    return sc.lines[0] == S.HEADER
+
+
+def driver_for(sc):
+    return S.DRIVER if is_sets(sc) else DRIVER
+
+
 def run_impl(sc):
+    if is_sets(sc):
+        return S.run_impl(sc)
     impl = Impl(sc.lines[0].split())
     obs = ["ok" if impl.o.impl.space is not None else "err Value"]
     for l in sc.lines[1:]:
@@ -286,6 +298,8 @@ def dump_inconsistencies(dump, hand_written_empty=False):
 
 
 def oracle(sc, obs):
+    if is_sets(sc):
+        return S.oracle(sc, obs)
     bad = []
     # once the program has written the built-in `empty` layer by hand, that layer legitimately differs from emptiness
     hand_empty = any(" layer set empty " in " " + l + " " for l in sc.lines)
@@ -323,6 +337,9 @@ def oracle(sc, obs):
 def generate(rng, tier, count):
     R = rng
     for _ in range(count):
+        if R.random() < 0.3:
+            yield S.generate_one(R, tier)
+            continue
         k = R.random()
         header = C.gen_grid_header(R) if k < 0.7 else None
         base = C.gen_c06(R, n_ops=R.randint(2, 10), header=header)
@@ -405,6 +422,8 @@ def generate(rng, tier, count):
 
 
 def nontrivial(sc, obs):
+    if is_sets(sc):
+        return S.nontrivial(sc, obs)
     i = next((k for k, l in enumerate(sc.lines) if l.startswith("copy ")), None)
     if i is None:
         return False
@@ -415,6 +434,9 @@ def nontrivial(sc, obs):
 
 
 def tags(sc, obs):
+    if is_sets(sc):
+        yield from S.tags(sc, obs)
+        return
     w = sc.lines[0].split()
     yield "space:" + (w[1] + ":" + w[2] if w[1] == "grid" else w[1])
     for l, o in zip(sc.lines, obs):
